@@ -1638,7 +1638,13 @@ func (state *RuntimeState) u2fTokenManagerHandler(w http.ResponseWriter, r *http
 		return
 	}
 	w.(*instrumentedwriter.LoggingWriter).SetUsername(authData.Username)
-	// TODO: ensure is a valid method (POST)
+	// Token changes must be POSTs: checkAuth only does its cross site check
+	// for non GET requests.
+	if r.Method != "POST" {
+		logger.Printf("Wanted Post got='%s'", r.Method)
+		state.writeFailureResponse(w, r, http.StatusMethodNotAllowed, "")
+		return
+	}
 	err = r.ParseForm()
 	if err != nil {
 		logger.Println(err)
